@@ -1009,8 +1009,12 @@ func genC08(g *G, sc *Scenario, tier string) {
 			spec["sinkFailAt"] = g.Range(1, 4)
 		case x < 0.24:
 			spec["sinkStoreFailAt"] = g.Range(1, 4)
-		case x < 0.35:
+		case x < 0.35 || (runType == "fullsync" && x > 0.88):
 			spec["killPoint"], spec["killAt"] = g.Pick(points), g.Range(1, 3)
+			if runType == "fullsync" && g.P(0.6) {
+				// a fullsync run killed between two pages, after it has turned earlier pages back to old versions
+				spec["killPoint"] = "pipeline.full.afterBatch"
+			}
 		case x < 0.6:
 			spec["crashPoint"], spec["crashAt"] = g.Pick(points), g.Range(1, 3)
 		}
@@ -1021,7 +1025,7 @@ func genC08(g *G, sc *Scenario, tier string) {
 		if len(spec) > 0 {
 			// a clean run after the faulty one must restore equality, and a further one adds nothing
 			next := runType
-			if g.P(0.4) {
+			if g.P(0.4) || (spec["killPoint"] != nil && g.P(0.5)) {
 				next = "incremental"
 			}
 			sc.Ops = append(sc.Ops, Op{K: "run", S: "job1", DS: next, N: 1})
